@@ -474,7 +474,14 @@ void sm9_z256_modp_haf(sm9_z256_t r, const sm9_z256_t a)
 
 void sm9_z256_modp_neg(sm9_z256_t r, const sm9_z256_t a)
 {
+	// -0 = 0 (mod p), not p
+	uint64_t mask = (uint64_t)0 - (uint64_t)((a[0] | a[1] | a[2] | a[3]) != 0);
+
 	(void)sm9_z256_sub(r, SM9_Z256_P, a);
+	r[0] &= mask;
+	r[1] &= mask;
+	r[2] &= mask;
+	r[3] &= mask;
 }
 #endif
 
